@@ -540,6 +540,10 @@ class C03(Check):
                     if q2 not in g[1]:
                         qs = g[1][:j] + (q2,) + g[1][j + 1:]
                         cands.append((n, emb, pos, seq[:i] + ((g[0], qs, g[2]),) + seq[i + 1:]))
+        # qubit arguments in ascending order
+        for i, g in enumerate(seq):
+            if tuple(sorted(g[1])) != g[1]:
+                cands.append((n, emb, pos, seq[:i] + ((g[0], tuple(sorted(g[1])), g[2]),) + seq[i + 1:]))
         # smaller register
         if n > 1 and all(q < n - 1 for g in seq for q in g[1]):
             cands.append((n - 1, emb, pos, seq))
@@ -710,7 +714,7 @@ class C03(Check):
             if fam != "plain":
                 # not specific to the embedding when the plainly written program of the same executed
                 # gates fails the same way: then it is reported as the plain family's failure
-                pc = (case[0], "plain", 0, tuple(expected_expansion(case[1], case[3])))
+                pc = (case[0], "plain", case[2], tuple(expected_expansion(case[1], case[3])))
                 if any(c == kind + "/plain" for c, _d in self._fails_of(pc)):
                     clause, at = kind + "/plain", pc
             small = self._minimise(clause, at)
